@@ -15,6 +15,8 @@ for ever, keeps a dead successor, or never re-admits a live one after a disturba
  d  stations that are gone are removed after a bounded number of unanswered passes, never one that was heard (imported C11 c.supervision);
  e  stations that are online are (re-)admitted: the GAP sweep reaches every GAP address within a bounded number of token visits and a
     responding master becomes the successor (imported C12 a./c./d.wait/e.reply);
+ g  a token holder lets go of the token after a lost reply: the visit's cycle stays marked as used and the hold-time deadline is
+    honoured (imported C13 c.deadline, d.flag);
  f  a station that went offline (crash / restart) rejoins from scratch: bus-activity marker, byte count and token ring are forgotten
     (imported C01 g.rx offline clause, C12 d.truthful offline clause).
 """
@@ -59,7 +61,9 @@ def check_timed_waits(ctx, P):
     for f in P.crate_fns(CR):
         if not poll_driven(f):
             continue
-        sites = [(b, c) for b, c in call_sites(f) if (c.get("callee") or "").endswith("PollDone::waiting_for_bus")]
+        # direct calls, and calls that are handed the constructor as a function value (`.unwrap_or_else(PollDone::waiting_for_bus)`)
+        sites = [(b, c) for b, c in call_sites(f) if (c.get("callee") or "").endswith("PollDone::waiting_for_bus")
+                 or any(str((a.get("k") or {}).get("fn") or "").endswith("PollDone::waiting_for_bus") for a in c.get("args", []) if isinstance(a, dict))]
         if not sites:
             continue
         ctx.analysed_fns.add(f.name)
@@ -82,8 +86,8 @@ def check_timed_waits(ctx, P):
             ctx.ob("a.timed-wait", "wait|%s|%d" % (f.name.split("::")[-1], n), not bad,
                    "the poll ends with \"waiting for the bus\" on a path class that neither made a state transition in this call nor is guarded by "
                    "an unexpired timer (slot time / token-lost time-out): on a silent bus the station waits here for ever: " + "; ".join(bad[:2]), f.loc(b))
-    ctx.anchor("\"waiting for the bus\" sites in poll-driven station code", nsites, 6)
-    ctx.anchor("path classes at those sites", ncls, 6)
+    ctx.anchor("\"waiting for the bus\" sites in poll-driven station code", nsites, 3)
+    ctx.anchor("path classes at those sites", ncls, 3)
     ctx.sample({"clause": "a.timed-wait", "sites": nsites, "path_classes": ncls})
 
 
@@ -136,6 +140,11 @@ def check(ctx):
     rule.import_clauses(ctx, "C01", C01.check, clauses=("b.sync-pause", "d.constants", "g.rx"), as_clause="c.claim-race+f.rejoin+b.rearm")
     rule.import_clauses(ctx, "C11", C11.check, clauses=("c.supervision", "e.alone"), as_clause="d.removal")
     rule.import_clauses(ctx, "C12", C12.check, clauses=("a.postcondition", "a'.provenance", "c.one-poll", "d.wait", "d.truthful", "e.reply"), as_clause="e.readmission")
+    # a token holder lets go of the token: after a lost reply / time-out the visit's cycle stays marked as used and the hold-time
+    # deadline is honoured, so the station reaches PassToken (otherwise every time-out grants another cycle and the other stations
+    # are locked out while the bus is never silent - seed C06-5)
+    from rules import C13
+    rule.import_clauses(ctx, "C13", C13.check, clauses=("a.hold-time", "b.pass", "c.deadline", "d.flag"), as_clause="g.token-released")
     ctx.assume("decides station-local recovery conditions of ONE station (necessary conditions); bounded-time recovery of a ring of several "
                "independently scheduled stations after arbitrary fault episodes is not decided")
 
